@@ -37,7 +37,7 @@ ValuesOf(cfg, i) ==
 MkB(os, ds, acc, cfg, bd, body, mu, xb, xq, rb, un) ==
    [nilsec |-> FALSE, unsized |-> un, opSec |-> os, docSec |-> ds, accepts |-> acc, pparams |-> ParamsOf(cfg, "p", 1), oparams |-> ParamsOf(cfg, "o", 1),
     values |-> ValuesOf(cfg, 1), bdecl |-> bd, body |-> body, multi |-> mu, exclBody |-> xb, exclQuery |-> xq, authReadsBody |-> rb, hist |-> <<>>,
-    opts |-> "plain"]
+    opts |-> "plain", prefs |-> "none"]
 MkU(os, ds, acc, cfg, body, mu, xb, xq, rb, un) ==
    MkB(os, ds, acc, cfg, IF body = "none" THEN "none" ELSE "required", body, mu, xb, xq, rb, un)
 
@@ -57,7 +57,7 @@ HCfg(p, o, p2) == <<[p |-> p, o |-> o], [p |-> p2, o |-> "none"], [p |-> "none",
 HValues(t) == IF t = "-" THEN <<>> ELSE <<V("query", "a", t)>>
 HBase(os, ds, acc, cfg, t, bd, body, mu) ==
    [nilsec |-> FALSE, unsized |-> FALSE, opSec |-> os, docSec |-> ds, accepts |-> acc, pparams |-> ParamsOf(cfg, "p", 1), oparams |-> ParamsOf(cfg, "o", 1),
-    values |-> HValues(t), bdecl |-> bd, body |-> body, multi |-> mu, exclBody |-> FALSE, exclQuery |-> FALSE, authReadsBody |-> FALSE, hist |-> <<>>, opts |-> "plain"]
+    values |-> HValues(t), bdecl |-> bd, body |-> body, multi |-> mu, exclBody |-> FALSE, exclQuery |-> FALSE, authReadsBody |-> FALSE, hist |-> <<>>, opts |-> "plain", prefs |-> "none"]
 Step(via, os, ds, cfg, bd) == [via |-> via, pparams |-> ParamsOf(cfg, "p", 1), oparams |-> ParamsOf(cfg, "o", 1), opSec |-> os, docSec |-> ds, bdecl |-> bd]
 (* every history ends by going back to the first route (A-B-A): both "the first one seen wins" and "the last one seen  *)
 (* wins" show                                                                                                          *)
@@ -87,6 +87,12 @@ Init ==
    \/ \E cfg \in [1..3 -> KeyCfgs], mu \in BOOLEAN :
         /\ \E i \in 1..3 : cfg[i] = Inactive
         /\ case = MkL(cfg, mu, FALSE)
+   \* reference focus: the parameters of a level are $refs to components.parameters (what overrides what is decided by
+   \* the name and location of the parameter referred to)
+   \/ \E cfg \in [1..3 -> KeyCfgs], pr \in {"path", "op", "both"}, mu \in BOOLEAN, xq \in BOOLEAN :
+        /\ \E i \in 1..3 : cfg[i] = Inactive
+        /\ (Tier = "quick" => ~xq /\ \E i, j \in 1..3 : i # j /\ cfg[i] = Inactive /\ cfg[j] = Inactive)
+        /\ case = [Mk(Absent, <<>>, {}, cfg, "none", mu, FALSE, xq, FALSE) EXCEPT !.prefs = pr]
    \* scope focus: requirements that list scopes; the callback decides per (scheme, scopes)
    \/ \E os \in ScopeSecs, ds \in {<<>>, << <<"A+w">> >>, << <<"A">> >>}, acc \in SUBSET {"A", "A+r", "A+w", "B"}, mu \in BOOLEAN :
         case = Mk(os, ds, acc, NoParams, "none", mu, FALSE, FALSE, FALSE)
@@ -114,6 +120,24 @@ Init ==
         /\ (Tier = "quick" /\ via = "edit" => (q = p /\ q2 = p2) \/ r = o)
         /\ case = WithHist(HBase(Absent, <<>>, {}, HCfg(p, o, p2), t, "none", "none", mu),
                             Step(via, Absent, <<>>, HCfg(q, r, q2), "none"))
+   \* history focus, chains (thorough): two further validations of different kinds before going back -- an edit seen
+   \* through the alias / by the sibling, an alias or sibling seen first and the edit after, alias and sibling in a row
+   \/ \E p \in HKinds, o \in HKinds, t \in {"x", "-"}, q \in HKinds, r \in HKinds, q1 \in HKinds, r1 \in HKinds,
+         chain \in {"edit-share", "edit-sibling", "share-edit", "sibling-edit", "share-sibling", "sibling-share"} :
+        /\ Tier = "thorough"
+        /\ LET b == HBase(Absent, <<>>, {}, HCfg(p, o, "none"), t, "none", "none", TRUE)
+               S(via, x, y) == Step(via, Absent, <<>>, HCfg(x, y, "none"), "none") IN
+           \/ chain = "edit-share"    /\ <<q, r>> # <<p, o>> /\ r1 = r /\ q1 # q /\ case = [b EXCEPT !.hist = <<S("edit", q, r), S("share", q1, r1), StepOf(b, "back")>>]
+           \/ chain = "edit-sibling"  /\ <<q, r>> # <<p, o>> /\ q1 = q /\ r1 # r /\ case = [b EXCEPT !.hist = <<S("edit", q, r), S("sibling", q1, r1), StepOf(b, "back")>>]
+           \/ chain = "share-edit"    /\ r = o /\ q # p /\ <<q1, r1>> # <<p, o>> /\ case = [b EXCEPT !.hist = <<S("share", q, r), S("edit", q1, r1), StepOf(b, "back")>>]
+           \/ chain = "sibling-edit"  /\ q = p /\ r # o /\ <<q1, r1>> # <<p, o>> /\ case = [b EXCEPT !.hist = <<S("sibling", q, r), S("edit", q1, r1), StepOf(b, "back")>>]
+           \/ chain = "share-sibling" /\ r = o /\ q # p /\ q1 = p /\ r1 # o /\ case = [b EXCEPT !.hist = <<S("share", q, r), S("sibling", q1, r1), StepOf(b, "back")>>]
+           \/ chain = "sibling-share" /\ q = p /\ r # o /\ r1 = o /\ q1 # p /\ case = [b EXCEPT !.hist = <<S("sibling", q, r), S("share", q1, r1), StepOf(b, "back")>>]
+   \* all three keys active (thorough): the override patterns of the parameter focus and of the location focus without the
+   \* "at most two" bound, multi-error mode so that every part shows
+   \/ \E cfg \in [1..3 -> KeyCfgs \ {Inactive}], xq \in BOOLEAN, loc \in BOOLEAN :
+        /\ Tier = "thorough" /\ (loc => ~xq)
+        /\ case = IF loc THEN MkL(cfg, TRUE, FALSE) ELSE Mk(Absent, <<>>, {}, cfg, "none", TRUE, FALSE, xq, FALSE)
    \* history focus, security and body declaration: the sibling operation / the edited document has another security
    \* list (operation or document level) or another requestBody declaration
    \/ \E os \in HSecs, ds \in {<<>>, << <<"B">> >>}, os2 \in HSecs, ds2 \in {<<>>, << <<"B">> >>}, acc \in {{}, {"A"}, {"B"}},
@@ -135,7 +159,8 @@ Init ==
    \/ \E cfg \in [1..3 -> KeyCfgs], sec \in {"nosec", "pass", "fail"}, body \in {"none", "pass", "fail"},
          mu \in BOOLEAN, xb \in BOOLEAN, xq \in BOOLEAN :
         /\ \E i \in 1..3 : cfg[i] = Inactive
-        /\ (Tier = "quick" => (sec # "pass" /\ (xb => body = "fail")))
+        \* quick slice: a failing security part only in multi-error mode (fail-first returns it before any parameter is looked at)
+        /\ (Tier = "quick" => (sec # "pass" /\ (xb => body = "fail") /\ (sec = "fail" => mu)))
         /\ case = Mk(IF sec = "nosec" THEN Absent ELSE L(<< <<"A">> >>), <<>>, IF sec = "pass" THEN {"A"} ELSE {},
                      cfg, body, mu, xb, xq, FALSE)
    \* requiredness focus: a (required) parameter, with or without a default, present / ill-typed / absent ("-")
